@@ -181,6 +181,30 @@ def _run(pid, tier):
                 t2 = t[:-1] + [dict(t[-1])] + mgmodel.record(ad2, [{"op": "split_column", "args": [c2.name, c2.node[rng.randrange(4)].name]}])[1:]
                 traces.append(t2)
                 meta.append((kind_ + "-refine-split", t2))
+    # snapping a subset of columns in which the column snapped is not the last one listed
+    for kind_ in ("2x2", "3x2"):
+        base_ = mgmodel.Adapter(mgmodel.lattice_mesh(kind_))
+        base_.project()
+        nm_ = [c_.name for c_ in base_.geo.columnlist]
+        zb = int(round(base_.geo.layerlist[1].bottom / mgmodel.H))
+        for sub in ([nm_[0], nm_[1]], [nm_[0], nm_[-1], nm_[2]], [nm_[2], nm_[0]]):
+            ad = _copy.deepcopy(base_)
+            t = mgmodel.record(ad, [{"op": "set_surface", "args": [nm_[0], zb + 1]}, {"op": "snap_columns_to_layers", "args": [2, sub]}])
+            traces.append(t)
+            meta.append((kind_ + "-snap-subset", t))
+    # the top of the model above zero, a column surface of exactly 0.0 strictly inside a layer, layers refined
+    for factor in (2, 3):
+        geo = mgmodel.lattice_mesh("2x2")
+        with core.quiet():
+            geo.translate(np.array([0.0, 0.0, 15.0]))
+            geo.columnlist[0].surface = 0.0
+            geo.set_column_num_layers(geo.columnlist[0])
+            geo.setup_block_name_index()
+            geo.setup_block_connection_name_index()
+        ad = mgmodel.Adapter(geo)
+        t = mgmodel.record(ad, [{"op": "refine_layers", "args": [[l_.name for l_ in geo.layerlist[1:]], factor]}])
+        traces.append(t)
+        meta.append(("2x2-surface0", t))
     # a triangle with two extra nodes on one side (five nodes, two adjacent straight angles), every start of its node cycle
     for rot in range(5):
         for args in ([["  a"]], [[]]):
@@ -286,7 +310,8 @@ def _run(pid, tier):
             if "C11_AreaConserved" in mine and (abs(a1["area"] - a0["area"]) > 1e-9 * a0["area"] or abs(a1["cached_area"] - a0["cached_area"]) > 1e-9 * a0["area"]
                                                 or a1["worst_cached_area_error"] > 1e-9):
                 bad.append("C11_AreaConserved")
-            if "C11_VolumeConserved" in mine and (abs(a1["volume"] - a0["volume"]) > 1e-9 * abs(a0["volume"]) or abs(a1["cached_volume"] - a0["cached_volume"]) > 1e-9 * abs(a0["volume"])):
+            if "C11_VolumeConserved" in mine and (abs(a1["volume"] - a0["volume"]) > 1e-9 * abs(a0["volume"]) or abs(a1["cached_volume"] - a0["cached_volume"]) > 1e-9 * abs(a0["volume"])
+                                                  or abs(a1.get("library_volume", a1["volume"]) - a0.get("library_volume", a0["volume"])) > 1e-9 * abs(a0["volume"])):
                 bad.append("C11_VolumeConserved")
             if bad:
                 rep.violation(t[l]["act"]["op"] + ":totals", ",".join(bad), {"mesh": kind, "actions": [x["act"] for x in t[:l + 1]], "before": a0, "after": a1})
